@@ -113,6 +113,11 @@ def run_kani_unit(name, tier):
     if name == 'b_henc':
         return _sweep(name, 'henc', ['%s\t%s' % c for c in HENC_CASES],
                       '%d documents x every 2-chunk split; EncodingIndicators raised vs the labels the WHATWG rules prescribe' % len(HENC_CASES))
+    if name == 'b_hser':
+        import itertools
+        alpha = ['a', '&', '<', '>', '"', "'", '\\u{a0}', '\\u{a9}', '\\u{e9}', ' ']
+        inputs = [''.join(t) for n in (1, 2, 3) for t in itertools.product(alpha, repeat=n)]
+        return _sweep(name, 'hser', inputs, 'all %d strings of length 1..3 over %s as text of <p>, as an attribute value and as text of <style>, vs the WHATWG "escaping a string" rules' % (len(inputs), ' '.join(alpha)))
     if name == 'b_xrt':
         return _sweep(name, 'xrt', replayer.XRT_INPUTS, 'XML round trip (parse, serialize, parse) over %d fixed documents' % len(replayer.XRT_INPUTS))
     if name == 'b_xtok':
